@@ -371,6 +371,26 @@ def check_mpf(F, prec, tup, p=None, max_length=None, length=None):
     maxfinite = Fraction((1 << P[F]) - 1) * Fraction(2) ** (maxexp - P[F])
     in_grid_exp = in_grid and (man == 0 or abs(val) <= maxfinite)   # mpf2expansion rounds: the value itself must not overflow
     fits_prec = bc <= prec
+    # ---------------- RSpec: what the expansion theorem assumes about the rounding step mpf2float
+    if in_grid_exp and man:
+        try:
+            y = U.mpf2float(dt, x)
+            if ref_kind(F, pat(y)) in ("inf", "nan"):
+                fail("expansion-rspec", "mpf2float:RSpec:finite", got=pat(y))
+            else:
+                X = val / Fraction(2) ** emin
+                Y = Fraction(float(y)) / Fraction(2) ** emin
+                assert X.denominator == 1 and Y.denominator == 1
+                X, Y = int(X), int(Y)
+                tzc = lambda n: (abs(n) & -abs(n)).bit_length() - 1
+                if Y == 0:
+                    fail("expansion-rspec", "mpf2float:RSpec:nonzero", got=pat(y))
+                elif not abs(X - Y) < abs(X):
+                    fail("expansion-rspec", "mpf2float:RSpec:contraction", got=pat(y))
+                elif tzc(Y) < tzc(X):
+                    fail("expansion-rspec", "mpf2float:RSpec:grid", got=pat(y))
+        except Exception as exn:
+            fail("expansion-rspec", f"mpf2float:RSpec:{type(exn).__name__}", exc=repr(exn)[:200])
     # ---------------- expansion
     try:
         ex = guarded(lambda: U.mpf2expansion(dt, x, length=length))
